@@ -19,8 +19,8 @@ Definition tom (t : omtab) (p : list nat) : Qc :=
   match p with [] => 0 | [c] => lookom t None c | c :: h :: _ => lookom t (Some h) c end.
 
 (* relative ESS <= thr, i.e. (sum w)^2 <= thr * N * sum w^2 *)
-Definition sumw2 (s : @swarm nat) : Qc := sumq (map (fun pw => snd pw * snd pw) s).
-Definition ess_rs (thr : Q) (s : @swarm nat) : bool :=
+Definition sumw2 {A} (s : @swarm A) : Qc := sumq (map (fun pw => snd pw * snd pw) s).
+Definition ess_rs {A} (thr : Q) (s : @swarm A) : bool :=
   Qle_bool (this (sumw s * sumw s)) (thr * this (qn (length s) * sumw2 s))%Q.
 
 (* PhyClone's schedule for T data points: init, Res, then (Upd, Res) ... Upd *)
